@@ -239,3 +239,123 @@ def parse_suite(ctx, texts):
             text=t[:600], impl=want[:300], model=(got or '')[:300]))[:1800]))
     ctx.say('parser correspondence: %d texts, %d mismatches %s' % (len(texts), len(bad), kinds))
     return bad
+
+
+# ---------------------------------------------------------------------------------------- typechecker
+def py_frontend(text, lint=False):
+    """'ok <typed tree>' | 'LexerError l:c' | 'ParserError l:c' | 'TypeCheckError' | 'EXC <type>'"""
+    import dump_ast
+    from hidc.lexer import SourceCode
+    from hidc.parser import parse
+    from hidc.ast import Environment
+    from hidc.errors import LexerError, ParserError, TypeCheckError
+    try:
+        parsed = parse(SourceCode.from_string(text))
+    except (LexerError, ParserError) as e:
+        c = e.context[-1].start
+        return '%s %d:%d' % (type(e).__name__, c.line, c.col)
+    env = Environment.empty(unreachable_error=lint)
+    try:
+        prog = parsed.evaluate(env)
+    except TypeCheckError:
+        return 'TypeCheckError'
+    except Exception as e:
+        return 'EXC ' + type(e).__name__
+    env.options['_parsed'] = parsed
+    return 'ok ' + dump_ast.dump_program(prog, env)
+
+
+def tc_suite(ctx, texts, lint=False):
+    model = model_run('tclint' if lint else 'tc', texts)
+    bad = []
+    kinds = {}
+    for k, t in texts.items():
+        want = py_frontend(t, lint)
+        got = model.get(k)
+        kk = want.split(' ')[0]
+        kinds[kk] = kinds.get(kk, 0) + 1
+        if want != got: bad.append((k, t, want, got))
+    st = ctx.stats.setdefault('tc_correspondence', dict(texts=0, mismatches=0, outcomes={}))
+    st['texts'] += len(texts); st['mismatches'] += len(bad)
+    for k, v in kinds.items(): st['outcomes'][k] = st['outcomes'].get(k, 0) + v
+    if bad:
+        k, t, want, got = bad[0]
+        ctx.breaks.append(dict(kind='correspondence', name='tc: Hid/Typecheck*.lean vs Program.evaluate', detail=repr(dict(
+            text=t[:700], impl=want[:300], model=(got or '')[:300]))[:2000]))
+    ctx.say('typechecker correspondence%s: %d texts, %d mismatches %s' % (' (lint)' if lint else '', len(texts), len(bad), kinds))
+    return bad
+
+
+def test_snippets():
+    """every string constant of the repository's front-end test files: about 400 hand-written
+    programs and fragments, valid and invalid (their expected outcome is irrelevant here: the
+    model is compared with the implementation on them)"""
+    import ast as pyast
+    out = []
+    for f in ('test_lexer.py', 'test_parser.py', 'test_typecheck.py', 'test_codegen.py'):
+        path = os.path.join(hidlib.REPO, 'tests', f)
+        if not os.path.exists(path): continue
+        tree = pyast.parse(open(path, encoding='utf-8').read())
+        for n in pyast.walk(tree):
+            if isinstance(n, pyast.Constant) and isinstance(n.value, str) and len(n.value) > 2:
+                out.append(n.value)
+            elif isinstance(n, pyast.Constant) and isinstance(n.value, bytes) and len(n.value) > 2:
+                try: out.append(n.value.decode('utf-8'))
+                except UnicodeDecodeError: pass
+    return sorted(set(out))
+
+
+TYPE_WORDS = ['int', 'byte', 'bool', 'string']
+LIT_SWAPS = ['1', '300', '"s"', 'true', "'c'", '[1, 2]', '[]', '[true]', '["a"]', '(-1)', '0']
+
+
+def type_mutate(rng, text):
+    """edits that keep the syntax (mostly) valid and disturb typing: swap type keywords, add or
+    drop const, swap literal kinds, rename identifiers, drop return statements, duplicate
+    declarations, change assignment operators, add array brackets"""
+    toks = [l for l in py_lex(text) if not l.startswith('#')]
+    if not toks: return text
+    lines = text.split('\n')
+
+    def span(l):
+        (l0, c0), (l1, c1) = [tuple(map(int, x.split(':'))) for x in l.split(' ')[0].split('-')]
+        return l0, c0, c1
+
+    for _ in range(rng.choice([1, 1, 2])):
+        k = rng.random()
+        if k < 0.25:
+            cands = [l for l in toks if l.split(' ', 1)[1].startswith('enum DataType.')]
+            if not cands: continue
+            l0, c0, c1 = span(rng.choice(cands))
+            rep = rng.choice(TYPE_WORDS + ['const int', 'int[]', 'const byte[]', 'empty'])
+        elif k < 0.45:
+            cands = [l for l in toks if l.split(' ')[1] in ('int', 'chr', 'str') or 'BoolToken' in l]
+            if not cands: continue
+            l0, c0, c1 = span(rng.choice(cands))
+            rep = rng.choice(LIT_SWAPS)
+        elif k < 0.65:
+            ids = [l for l in toks if l.split(' ')[1] == 'ident']
+            if len(ids) < 2: continue
+            a, b = rng.sample(ids, 2)
+            l0, c0, c1 = span(a)
+            bl, bc0, bc1 = span(b)
+            rep = lines[bl][bc0:bc1]
+        elif k < 0.75:
+            cands = [l for l in toks if 'StmtToken.RETURN' in l or 'StmtToken.CONST' in l]
+            if not cands: continue
+            l0, c0, c1 = span(rng.choice(cands))
+            rep = rng.choice(['', 'const'])
+        elif k < 0.85:
+            cands = [l for l in toks if 'StmtToken.ASSIGN' in l or 'IncAssignToken' in l]
+            if not cands: continue
+            l0, c0, c1 = span(rng.choice(cands))
+            rep = rng.choice(['=', '+=', '/=', '%='])
+        else:
+            i = rng.randrange(len(lines))
+            lines.insert(i, lines[i])
+            toks = [l for l in py_lex('\n'.join(lines)) if not l.startswith('#')]
+            continue
+        lines[l0] = lines[l0][:c0] + rep + lines[l0][c1:]
+        toks = [l for l in py_lex('\n'.join(lines)) if not l.startswith('#')]
+        if not toks: break
+    return '\n'.join(lines)
